@@ -1,6 +1,8 @@
 mod be;
 mod exec;
 mod exec2;
+mod exec3;
+mod gen_claims;
 mod facts;
 mod gen_text;
 mod util;
@@ -36,6 +38,9 @@ fn main() {
                 "c15" => gen_text::gen_c15(&mut out, seed, thorough),
                 "c09" => gen_text::gen_c09(&mut out, seed, thorough),
                 "c10" => gen_text::gen_c10(&mut out, seed, thorough),
+                "c11" => gen_claims::gen_c11(&mut out, seed, thorough),
+                "c12pipe" => gen_claims::gen_c12pipe(&mut out, seed, thorough),
+                "c14" => gen_claims::gen_c14(&mut out, seed, thorough),
                 _ => {
                     eprintln!("unknown stream");
                     std::process::exit(2)
